@@ -21,7 +21,8 @@ type Mutant struct {
 	File            string       `json:"file"`
 	Find            string       `json:"find"`
 	Replace         string       `json:"replace"`
-	Edits           []MutantEdit `json:"edits,omitempty"` // additional (or alternative) edits, e.g. the hunks of a seeded patch
+	Edits           []MutantEdit `json:"edits,omitempty"`       // additional (or alternative) edits, e.g. the hunks of a seeded patch
+	ExpectNone      bool         `json:"expect_none,omitempty"` // behaviour-preserving refactor: no rule may fire
 	ExpectRule      string       `json:"expect_rule"`
 	ExpectConstruct string       `json:"expect_construct"` // substring
 	Note            string       `json:"note,omitempty"`
@@ -122,6 +123,17 @@ func selfTest(r *core.Run, repo, verif string) {
 				}
 			}
 			name := filepath.Base(f)
+			if m.ExpectNone {
+				switch {
+				case strings.HasPrefix(status, "MUTANT-SKIP"), strings.HasPrefix(status, "MUTANT-NOCOMPILE"):
+					results[i] = res{name, name + ": skipped (" + strings.ReplaceAll(status, "\t", " ") + ")", true, true}
+				case len(fired) == 0:
+					results[i] = res{name, name + ": behaviour-preserving refactor, silent as required", true, false}
+				default:
+					results[i] = res{name, fmt.Sprintf("%s: FALSE ALARM on a behaviour-preserving refactor (fired: %s)", name, strings.Join(fired, "; ")), false, false}
+				}
+				return
+			}
 			switch {
 			case status == "fires":
 				results[i] = res{name, fmt.Sprintf("%s: fires %s %s (all: %s)", name, m.ExpectRule, m.ExpectConstruct, strings.Join(fired, "; ")), true, false}
